@@ -313,7 +313,7 @@ def proj(term, i, n):
 def join_types(a, b):
     """least common type of two branches (None joins T to Optional[T]); None if there is none"""
     if a == b:
-        return a
+        return b if isinstance(b, NamedTupleType) and not isinstance(a, NamedTupleType) else a      # (keep the component names)
     if a == EMPTYLIST and is_seq(b):
         return b
     if b == EMPTYLIST and is_seq(a):
@@ -1353,7 +1353,11 @@ class FnTranslator:
                     and not e.keywords and len(e.args) == 4 and self.spec.get('part', 1) >= 3:
                 # the tuple subclass `_Segment(bits, char_count, mode, encoding)`: its four components
                 vs = [self.ex(a, env, ctx) for a in e.args]
-                return Val('(' + ', '.join(v.term for v in vs) + ')', TUPLE(*[v.ty for v in vs]), elts=vs)
+                flds = tuple_class_fields(vars(self.module)[nm], len(vs))
+                ty = TUPLE(*[v.ty for v in vs])
+                if flds is not None and len(flds) == len(vs):          # round 6: the components keep their names (`segment.bits`)
+                    ty = NT(**dict(zip(flds, ty[1:])))
+                return Val('(' + ', '.join(v.term for v in vs) + ')', ty, elts=vs)
             import functools
             import operator
             if nm == 'product' and vars(self.module).get(nm) is itertools.product:
@@ -1397,6 +1401,8 @@ class FnTranslator:
                         i = self.let_bind(ctx, i.term, INT, base='i')
                     tmp = '_row_of_' + f.value.value.id
                     return self.seq_method(tmp, f.attr, e, {**env, tmp: Val(None, b.ty[1], view=(f.value.value.id, i.term))}, ctx)
+            if isinstance(f.value, ast.Dict):
+                return self.dict_display_get(f, e, env, ctx)          # round 6: `{k₁: v₁, …}.get(e, d)`
             recv = self.ex(f.value, env, ctx)
             if e.keywords:
                 raise Untranslatable(f'keyword arguments of method {f.attr}')
@@ -2249,6 +2255,8 @@ class FnTranslator:
             return self.for_stmt(s, env, cont)
         if isinstance(s, ast.While):
             return self.while_stmt(s, env, cont)
+        if isinstance(s, ast.Delete):
+            return self.block(self.delete_as_pop(s, env) + rest, env, k)          # round 6: `del xs[i]`
         raise Untranslatable(f'statement {type(s).__name__}')
 
     def if_stmt(self, test, then, orelse, env, cont):
@@ -2778,6 +2786,46 @@ class FnTranslator:
         # the loop variable keeps its last value in Python; it is not available afterwards here
         return self.run_loop(s.body, env, cont, ctx, src, pat, env_t, tnames)
 
+    # ------------------------------------------------------------ round 6: `del xs[i]`, `{…}.get(k, d)`
+    def delete_as_pop(self, s, env):
+        """`del xs[i]` (xs a local list / bytearray that is not a view, i an index, not a slice) removes the item `xs.pop(i)`
+        removes and raises the same IndexError: it is translated as that call, the popped item is dropped"""
+        out = []
+        for t in s.targets:
+            if not (isinstance(t, ast.Subscript) and isinstance(t.value, ast.Name) and not isinstance(t.slice, (ast.Slice, ast.Tuple))):
+                raise Untranslatable(f'del {ast.unparse(t)[:40]} (only `del xs[i]` of a local sequence is translated)')
+            v = env.get(t.value.id)
+            if v is None or v.view is not None or not (v.ty == BYTEARRAY or (isinstance(v.ty, tuple) and v.ty[0] == 'list')):
+                raise Untranslatable(f'del {ast.unparse(t)[:40]}: {t.value.id} is not a local list / bytearray')
+            call = ast.Call(func=ast.Attribute(value=ast.Name(id=t.value.id, ctx=ast.Load()), attr='pop', ctx=ast.Load()),
+                            args=[t.slice], keywords=[])
+            out.append(ast.copy_location(ast.Expr(value=call), s))
+        return [ast.fix_missing_locations(x) for x in out]
+
+    def dict_display_get(self, f, e, env, ctx):
+        """`{k₁: v₁, …, kₙ: vₙ}.get(key, default)`: the keys are distinct integer constants, the values integer expressions
+        that cannot raise (Python evaluates all of them, then `key` and `default`) -> `Py.getD [(k₁, v₁), …] key default`"""
+        if f.attr != 'get' or len(e.args) != 2 or e.keywords:
+            raise Untranslatable(f'method {f.attr} of a dict display (only `.get(key, default)` is translated)')
+        d = f.value
+        if any(k is None for k in d.keys):
+            raise Untranslatable('** in a dict display')
+        sub = Ctx()
+        ks = [self.ex(k, env, sub) for k in d.keys]
+        vs = [self.ex(v, env, sub) for v in d.values]
+        if sub.binds or sub.updates:
+            raise Untranslatable('a dict display whose keys / values can raise or update something')
+        if any(not (k.is_const and k.ty == INT) for k in ks) or len({k.const for k in ks}) != len(ks):
+            raise Untranslatable('dict display: the keys must be distinct integer constants')
+        if any(v.ty != INT for v in vs):
+            raise Untranslatable('dict display: the values must be integers')
+        key = self.ex(e.args[0], env, ctx)
+        dflt = self.ex(e.args[1], env, ctx)
+        if key.ty != INT or dflt.ty != INT:
+            raise Untranslatable(f'dict display .get({key.ty}, {dflt.ty})')
+        pairs = ', '.join(f'({k.term}, {v.term})' for k, v in zip(ks, vs))
+        return Val(f'(Py.getD ([{pairs}] : List (Int × Int)) {key.term} {dflt.term})', INT)
+
     # ------------------------------------------------------------ the whole function
     def translate(self):
         """-> (lean parameter list, lean result type, body term, monadic?)"""
@@ -2845,6 +2893,59 @@ def find_function(tree, path):
     return node
 
 
+def tuple_class_fields(cls, n):
+    """the names of the n components of the tuple subclass `cls`: `_fields` of a namedtuple, or the properties of the
+    class that are `operator.itemgetter(k)` (read off by applying them to (0, …, n-1)); None when some component has no name"""
+    import operator
+    if getattr(cls, '_fields', None) is not None:
+        return tuple(cls._fields)
+    names = {}
+    for nm, p in vars(cls).items():
+        if isinstance(p, property) and isinstance(p.fget, operator.itemgetter) and p.fset is None:
+            try:
+                k = p.fget(tuple(range(n)))
+            except Exception:  # noqa
+                continue
+            if isinstance(k, int) and k not in names:
+                names[k] = nm
+    return tuple(names[k] for k in range(n)) if all(k in names for k in range(n)) else None
+
+
+def self_state_function(fn, spec):
+    """round 6: a METHOD that assigns to / updates in place the attributes `spec['self_state']` of `self` is translated as the
+    function from the values of these attributes (leading parameters `self_<attr>`, declared in `params` and `mutates` of the
+    spec) and the remaining parameters to the final values of the attributes.  `self.<attr>` becomes the local name
+    `self_<attr>`; any other use of `self` (another attribute, a method call, `self` itself) is refused.
+    DOMAIN ASSUMPTION (printed in the doc comment): the attributes hold DISTINCT objects (no two attributes alias one list)."""
+    import copy
+    attrs = list(spec['self_state'])
+    args = fn.args.posonlyargs + fn.args.args
+    if not args or args[0].arg != 'self':
+        raise Untranslatable('self_state: not a method')
+    fn = copy.deepcopy(fn)
+    taken = {n.id for n in ast.walk(fn) if isinstance(n, ast.Name)} | {a.arg for a in ast.walk(fn) if isinstance(a, ast.arg)}
+    for a in attrs:
+        if 'self_' + a in taken:
+            raise Untranslatable(f'self_state: the name self_{a} is used by the method')
+
+    class R(ast.NodeTransformer):
+        def visit_Attribute(self, n):
+            if isinstance(n.value, ast.Name) and n.value.id == 'self':
+                if n.attr not in attrs:
+                    raise Untranslatable(f'self.{n.attr}: not one of the declared state attributes {attrs}')
+                return ast.copy_location(ast.Name(id='self_' + n.attr, ctx=n.ctx), n)
+            return self.generic_visit(n)
+
+        def visit_Name(self, n):
+            if n.id == 'self':
+                raise Untranslatable('`self` used otherwise than through a declared state attribute')
+            return n
+    fn.body = [R().visit(st) for st in fn.body]
+    pos = fn.args.posonlyargs if fn.args.posonlyargs else fn.args.args
+    pos[0:1] = [ast.arg(arg='self_' + a) for a in attrs]
+    return ast.fix_missing_locations(fn)
+
+
 def literal_defaults(fn):
     """parameter name -> default value, for literal defaults"""
     res = {}
@@ -2889,6 +2990,8 @@ class Translation:
         self.part_of_def[name] = part
         try:
             fn = find_function(self.trees[mod], spec['path'])
+            if spec.get('self_state'):
+                fn = self_state_function(fn, spec)          # round 6: a method that updates attributes of `self`
             tr = FnTranslator(spec, self.modules[mod], fn, self.registry, self.tables, self.aliases[mod])
             params, sig, rty, term, monadic = tr.translate()
             dom = ', '.join(f'{nm}: {describe(ty)}' for nm, ty in list(spec.get('closure', {}).items()) + list(spec['params'].items()))
@@ -2904,6 +3007,9 @@ class Translation:
                         what = f'len({nm})' if fnm == '__len__' else f'{nm}.{fnm}' if hasattr_class(self.modules[mod], ty[2], fnm) \
                             else f'what the translated methods of {nm} read as their parameter {fnm}'
                         doc.append(f'parameter `{pname}` stands for {what}')
+            if spec.get('self_state'):
+                doc.append('a method that updates `self`: parameter `self_<attr>` stands for `self.<attr>` ('
+                           + ', '.join(spec['self_state']) + '); DOMAIN ASSUMPTION: these attributes hold distinct objects')
             if spec.get('mutates'):
                 doc.append('updated in place, returned ' + ('in front of the result' if spec['ret'] != NONE else 'as the result')
                            + ': ' + ', '.join(spec['mutates']))
@@ -3019,6 +3125,8 @@ class Translation:
 
     # ---------------------------------------------------------------- output
     def funcs_text(self, part=1):
+        if part == 6:
+            return self.part_text(6, 'Gen.Funcs4', 'Gen.Funcs6', 'Gen.Py Gen.Funcs Gen.Funcs2 Gen.Funcs3', False)
         imp, ns = ('Gen.Py', 'Gen.Funcs') if part == 1 else ('Gen.Py2\nimport Gen.Funcs', 'Gen.Funcs2') if part == 2 else \
             ('Gen.Funcs2', 'Gen.Funcs3') if part == 3 else ('Gen.Funcs3', 'Gen.Funcs4')
         out = ['-- GENERATED by tools/gen.py (tools/pytolean.py: AST translation of the repository working tree). DO NOT EDIT.',
@@ -3037,6 +3145,8 @@ class Translation:
     def check_text(self, part=1, shard=None, shards=1):
         """the validation examples of `part`; with `shards` > 1 they are spread over several files (built in parallel):
         shard k gets the k-th share, `shard=None` is the root file importing the shares"""
+        if part == 6:
+            return self.part_text(6, 'Gen.Funcs6', 'Gen.Funcs6Check', 'Gen.Py Gen.Funcs Gen.Funcs2 Gen.Funcs3 Gen.Funcs6', True)
         imp, ns, op = ('Gen.Funcs', 'Gen.FuncsCheck', 'Gen.Py Gen.Funcs') if part == 1 else \
             ('Gen.Funcs2', 'Gen.Funcs2Check', 'Gen.Py Gen.Funcs Gen.Funcs2') if part == 2 else \
             ('Gen.Funcs3', 'Gen.Funcs3Check', 'Gen.Py Gen.Funcs Gen.Funcs2 Gen.Funcs3') if part == 3 else \
@@ -3061,6 +3171,33 @@ class Translation:
             out += [c, '']
         out += [f'end {ns}', '']
         return '\n'.join(out)
+
+
+def _part_text(self, part, imp, ns, op, checks):
+    """round 6: the definitions (or, with `checks`, the validation examples) of `part` as one file"""
+    if checks:
+        out = ['-- GENERATED by tools/gen.py (tools/pytolean.py). DO NOT EDIT.',
+               '-- Translation validation: what the real Python functions returned at generation time on sample arguments,',
+               '-- compared by the Lean kernel with what the translated functions compute.',
+               f'import {imp}', '', f'namespace {ns}', f'open {op}', '',
+               '-- (DecidableEq of a product of lists of products is larger than the default instance-size bound)',
+               'set_option synthInstance.maxSize 512', '']
+        for c, pt in zip(self.checks, self.part_of_check + [1] * len(self.checks)):
+            if pt == part:
+                out += [c, '']
+    else:
+        out = ['-- GENERATED by tools/gen.py (tools/pytolean.py: AST translation of the repository working tree). DO NOT EDIT.',
+               f'import {imp}', '', 'set_option linter.unusedVariables false', '', f'namespace {ns}', f'open {op}', '']
+        for nm in self.tables.order:
+            if self.part_of_table.get(nm, 1) == part:
+                out += [self.tables.defs[nm][1], '']
+        for nm, text in self.defs:
+            if self.part_of_def.get(nm, 1) == part:
+                out += [text, '']
+    return '\n'.join(out + [f'end {ns}', ''])
+
+
+Translation.part_text = _part_text
 
 
 def hasattr_class(module, cls, attr):
@@ -3268,6 +3405,7 @@ def segno_specs(mods, trees):
     specs += segno_specs2(mods, trees, versions, levels)
     specs += segno_specs3(mods, trees, versions, levels)
     specs += segno_specs4(mods, trees, versions, levels)
+    specs += segno_specs6(mods, trees, versions, levels)
     for s in specs:
         s['name'] = s['path'][-1]
     return specs
@@ -3603,6 +3741,67 @@ def segno_specs4(mods, trees, versions, levels):
     return specs
 
 
+def segno_specs6(mods, trees, versions, levels):
+    """round 6 (Gen/Funcs6.lean): `Segments.add_segment` — a method that UPDATES `self` (`self.segments`, `self.bit_length`,
+    `self.modes`): translated as the function from these three values and the segment to their final values (`self_state`)."""
+    enc = mods['encoder']
+    SEG = NT(bits=BUFFER, char_count=INT, mode=INT, encoding=OPT(STR))
+
+    def add_segment_call(a):
+        """the REAL method on a `Segments` object put into the given state; the final state is read back by the caller
+        through the (updated in place) lists and, for the integer attribute, through the returned value"""
+        segs = enc.Segments()
+        segs.segments = a['self_segments']
+        segs.bit_length = a['self_bit_length']
+        segs.modes = a['self_modes']
+        r = segs.add_segment(enc._Segment(*a['segment']))
+        assert r is None and segs.segments is a['self_segments'] and segs.modes is a['self_modes']
+        a['self_bit_length'] = segs.bit_length
+        return None
+
+    def seg(bits, cc, mode, encoding=None):
+        return ([int(c) for c in bits], cc, mode, encoding)
+
+    def state(*segs):
+        return ([s for s in segs], sum(len(s[0]) for s in segs), [s[2] for s in segs])
+    n3, n4, n1 = seg('0001111011', 3, 1), seg('00011110110100', 4, 1), seg('0111', 1, 1)
+    a2, a1, a3 = seg('00111001101', 2, 2), seg('001010', 1, 2), seg('00111001101001100', 3, 2)
+    b1, b2 = seg('01100001', 1, 4, 'iso-8859-1'), seg('0110000101100010', 2, 4, 'iso-8859-1')
+    u1, bn = seg('11000011', 1, 4, 'utf-8'), seg('01100001', 1, 4, None)
+    k1, k2, h1 = seg('0110110011111', 1, 8), seg('01101100111111101010101010', 2, 8), seg('0001101011111', 1, 13)
+    e0 = seg('', 0, 1)
+    cases = []
+    for st, sg in [(state(), n3), (state(), b1), (state(), e0),
+                   (state(n3), n3), (state(n3), n1), (state(n4), n3), (state(n1), n1), (state(n3, n3), n4), (state(e0), n3),
+                   (state(a2), a1), (state(a1), a2), (state(a3), a2), (state(a2, a2), a3),
+                   (state(b1), b1), (state(b1), b2), (state(b2), b1), (state(b1), u1), (state(u1), b1), (state(u1), u1), (state(b1), bn),
+                   (state(bn), bn), (state(bn), b1),
+                   (state(n3), a2), (state(a2), n3), (state(n3), b1), (state(b1), n3), (state(a2), b1), (state(n3, a2), a2),
+                   (state(k1), k1), (state(k1), k2), (state(k2), k1), (state(h1), h1), (state(k1), h1), (state(h1), k1), (state(k1), b1),
+                   (state(n3, a2, b1), b1), (state(n3, a2, b1), n3), (state(b1, n3), n3), (state(b1, n4), n3),
+                   # states that violate the invariant (bit_length / modes unrelated to the segments): the method does not look
+                   (([n3], 100, [7]), n3), (([n4, a2], -5, [1]), a2), (([b1], 0, []), b1), (([b1], 8, []), n3)]:
+        cases.append((st[0], st[1], st[2], sg))
+    # repeated merges: the state the real method reaches from the empty one, one step further
+    acc = state()
+    for sg in (n3, n3, n1, n3, a2, a2, a1, a2, b1, b1, u1):
+        cases.append((acc[0], acc[1], acc[2], sg))
+        ss = enc.Segments()
+        ss.segments, ss.bit_length, ss.modes = [enc._Segment(*x) for x in acc[0]], acc[1], list(acc[2])
+        ss.add_segment(enc._Segment(*sg))
+        acc = ([(list(x.bits), x.char_count, x.mode, x.encoding) for x in ss.segments], ss.bit_length, list(ss.modes))
+    specs = [
+        dict(module='encoder', path=['Segments', 'add_segment'], self_state=['segments', 'bit_length', 'modes'],
+             params={'self_segments': LIST(SEG), 'self_bit_length': INT, 'self_modes': LIST(INT), 'segment': SEG},
+             ret=NONE, mutates=['self_segments', 'self_bit_length', 'self_modes'],
+             cases=cases, nsamples=0, group=9, pycall=add_segment_call),
+    ]
+    for s in specs:
+        s['part'] = 6
+        s.setdefault('decide', 'decide +kernel')
+    return specs
+
+
 def parity_with(enc, a):
     """`calc_structured_append_parity(content)` with the three `content.encode(…)` reads replaced by the given outcomes"""
     outcomes = {'iso-8859-1': a['latin1'], 'shift-jis': a['sjis'], 'utf-8': a['utf8']}
@@ -3658,4 +3857,6 @@ def generate(repo, leandir, write_if_changed, modules):
         changed.append(write_if_changed(os.path.join(leandir, 'Gen', f'Funcs3Check{k + 1}.lean'), tr.check_text(3, k, CHECK_SHARDS3)))
     changed += [write_if_changed(os.path.join(leandir, 'Gen', 'Funcs4.lean'), tr.funcs_text(4)),
                 write_if_changed(os.path.join(leandir, 'Gen', 'Funcs4Check.lean'), tr.check_text(4))]
+    changed += [write_if_changed(os.path.join(leandir, 'Gen', 'Funcs6.lean'), tr.funcs_text(6)),
+                write_if_changed(os.path.join(leandir, 'Gen', 'Funcs6Check.lean'), tr.check_text(6))]
     return changed, tr.report
